@@ -2,6 +2,7 @@ CONSTANTS
   Paths <- PathsT
   Cat <- CatT
   Inert <- InertT
+  CleanSkips = {}
   Unseen = {}
   Txns = {}
   RestoreWrongDirection = FALSE
